@@ -294,6 +294,13 @@ static int general_const (Gen *g, int size, int is_float_operand, int want_param
     }
     n = m;
   }
+  if (kind == VK_PARAM && g->cur_mult != 1) {
+    /* a parameter declared float/double is a number, not a bit pattern: real callers only hand it to an operand of its own
+       width (orcc passes it by value); under x2/x4 only integer-typed (raw) parameters are reused */
+    int k, m = 0;
+    for (k = 0; k < n; k++) if (ps->vars[cand[k]].ptype != PT_FLOAT && ps->vars[cand[k]].ptype != PT_DOUBLE) cand[m++] = cand[k];
+    n = m;
+  }
   if (n && ((ch & 3) == 0 || ps->count[kind] >= kind_max[kind])) {
     v = cand[(ch >> 2) % (uint32_t) n];
     if (!ps->vars[v].use_lsize) { ps->vars[v].use_lsize = g->cur_lsize; ps->vars[v].use_mult = g->cur_mult; }
@@ -310,8 +317,8 @@ static int general_const (Gen *g, int size, int is_float_operand, int want_param
   if (kind == VK_CONST) {
     ps->vars[v].cval = is_float_operand && size >= 4 ? v_float_value (size, ch >> 2) : v_value (size, ch >> 2);
   } else {
-    if (size == 8) ps->vars[v].ptype = is_float_operand ? PT_DOUBLE : PT_INT64;
-    else if (size == 4) ps->vars[v].ptype = is_float_operand ? PT_FLOAT : PT_INT;
+    if (size == 8) ps->vars[v].ptype = is_float_operand && g->cur_mult == 1 ? PT_DOUBLE : PT_INT64;
+    else if (size == 4) ps->vars[v].ptype = is_float_operand && g->cur_mult == 1 ? PT_FLOAT : PT_INT;
     else ps->vars[v].ptype = PT_INT;
   }
   return v;
